@@ -32,6 +32,12 @@ def configs(tier, seed):
                         "params": {"rhomax": rm, "base": base, "numax": 0.7}, "cost": 20})
         out.append({"name": "route-free-T_HOO-rhomax%s" % rm, "algo": "POO", "part": "B", "d": 1, "mode": "free", "T": FREE_T[rm][q],
                     "params": {"rhomax": rm, "base": "T_HOO"}, "cost": 40})
+    # budgets around the doublings (the schedule must not depend on the declared budget)
+    for rm, budgets in ((0.9, range(12, 131, 2 if q == 0 else 1)), (0.84, range(20, 60, 3)), (0.86, range(16, 40, 2))):
+        for R in budgets:
+            out.append({"name": "route-budget%d-T_HOO-rhomax%s" % (R, rm), "algo": "POO", "part": "B", "d": 1, "mode": "banded", "T": min(R, 130),
+                        "params": {"rhomax": rm, "base": "T_HOO", "rounds": R}, "cost": 10})
+    out.extend(inductive_configs(tier))
     out.append({"name": "twin-POO", "algo": "POO", "part": "B", "d": 1, "mode": "free", "T": 6, "params": {"rhomax": 0.9, "base": "T_HOO"}, "twin": True, "expect_fail": "twin"})
     return out
 
@@ -49,7 +55,14 @@ def on_grid(rho, rhomax):
     return False
 
 
+def setup(mods_):
+    from sx import ufmodel
+    ufmodel.install()
+
+
 def run(ctx, cfg):
+    if cfg.get("mode") == "induct":
+        return run_induct(ctx, cfg)
     p = params_of(cfg)
     rhomax, numax = p["rhomax"], p["numax"]
     learners = []
@@ -104,3 +117,112 @@ def run(ctx, cfg):
                     ctx.check_ge("route:recommends_best_score", sc(who[0]), sc(L), "learner %d has a higher mean than the recommending learner %d" % (L.idx, who[0].idx))
     if cfg.get("twin"):
         ctx.check_eq("twin", algo.V_reward[0], 0, "reachability witness: deliberately false")
+
+
+# ---------------------------------------------------------------------------------------------
+# Inductive step (DESIGN §C10): from an ARBITRARY state satisfying the schedule invariant, one real
+# pull + receive_reward re-establishes the invariant and the mean equation.  Together with the
+# bounded runs above (which start from the constructor's state and satisfy the invariant there) this
+# covers horizons of any length for the routing / score / count clauses.
+def inductive_configs(tier):
+    out = []
+    for N in (2, 4, 8) + ((16,) if tier == "thorough" else ()):
+        for mode in ("create", "sweep"):
+            out.append({"name": "induct-%s-N%d" % (mode, N), "algo": "POO", "part": "B", "d": 1, "mode": "induct", "phase_mode": mode, "N": N, "T": 1,
+                        "params": {"rhomax": 0.9, "base": "T_HOO"}, "cost": 5})
+    return out
+
+
+def run_induct(ctx, cfg):
+    """POO object put directly into a symbolic state:
+         N concrete power of two, n = m*N with m a symbolic integer >= 1,
+         sweep mode : L learners, algo_counter = a symbolic in [0, L), Times[i] = m + [i < a]
+         create mode: L-1 finished learners with Times = m, the newest with Times = counter in [0, m)
+                      (counter = 0 means: the newest learner is created by this very pull)
+         V_reward[i] symbolic with V_reward[i] * Times[i] = S_i (S_i the reward sum)
+       the mode test N <= 0.5*Dmax*ln(n/ln n) is forced to the wanted side by an assumption on the
+       uninterpreted log terms (it is evaluated on the same terms in pull and receive_reward)."""
+    import numpy as np
+    from sx import ufmodel
+    from sx.engine import Sym
+    ufmodel.reset()
+    p = params_of(cfg)
+    learners = []
+    Stub = make_stub(p["base"], learners)
+    dom = [[0.0, 1.0]]
+    algo = build(ctx, cfg, dom, base_cls=Stub)
+    N = cfg["N"]
+    m = ctx.int("m", 1)
+    algo.N = N
+    algo.n = m * N
+    L = N  # enough learners for every phase index of this N
+    mode = cfg["phase_mode"]
+    S = [ctx.real("S%d" % i) for i in range(L)]
+    V = [ctx.real("V%d" % i) for i in range(L)]
+    stubs = [Stub(nu=1, rho=0.5, domain=dom) for _ in range(L)]
+    if mode == "sweep":
+        a = ctx.int("a", 0, L - 1)
+        a_c = ctx.E.concretize(a.e) if ctx.symbolic else a  # which learner is next: every value explored
+        times = [m + (1 if i < a_c else 0) for i in range(L)]
+        algo.V_algo = list(stubs)
+        algo.algo_counter = a_c
+        algo.phase, algo.counter = 0, 0
+        cur = a_c
+    else:
+        k = ctx.choose(L, "learners_finished")  # how many learners of this N are complete
+        counter = ctx.int("counter", 0)
+        ctx.assume(counter < m)
+        fresh = bool(ctx.holds(counter == 0)) if not ctx.symbolic else None
+        algo.phase = k
+        algo.counter = counter
+        algo.V_algo = list(stubs[:k + 1])
+        times = [m] * k + [counter]
+        cur = k
+    algo.V_reward = [V[i] for i in range(len(algo.V_algo))]
+    algo.Times = [times[i] for i in range(len(algo.V_algo))]
+    for i in range(len(algo.V_algo)):
+        ctx.assume(V[i] * times[i] == S[i])
+    # force the mode: Dmax is part of the abstract state (0: the creation bound is never met; huge: always)
+    algo.Dmax = 1e9 if mode == "create" else 0.0
+    test = N <= 0.5 * algo.Dmax * np.log(algo.n / np.log(algo.n))
+    want = (mode == "create")
+    if ctx.symbolic and not isinstance(test, (bool, np.bool_)):
+        ctx.assume(test if want else ~test)
+    n_before = len(algo.V_algo)
+    created_now = False
+    if mode == "create":
+        # counter == 0: POO creates the learner in this pull; model it by dropping the pre-made stub
+        if bool(counter == 0):
+            algo.V_algo.pop()
+            algo.V_reward.pop()
+            algo.Times.pop()
+            created_now = True
+    pb = [len(x.pulls) for x in stubs] + [0] * 4
+    nl = len(learners)
+    pt = ctx.call("pull", algo.pull, 1)
+    serving = algo.V_algo[cur]
+    ctx.check("induct:served_by_scheduled_learner", serving.pulls and serving.pulls[-1][2] is pt, "the point is not the proposal of the learner the schedule designates")
+    ctx.check("induct:one_learner_pulled", sum(len(x.pulls) for x in algo.V_algo) == 1, "more than one learner pulled")
+    r = ctx.real("r")
+    ctx.call("receive_reward", algo.receive_reward, 1, r)
+    ctx.check("induct:reward_to_serving_learner", len(serving.rewards) == 1 and serving.rewards[-1][2] is r and sum(len(x.rewards) for x in algo.V_algo) == 1,
+              "the reward did not go to exactly the serving learner")
+    # invariant afterwards: count + 1, score = (S + r)/(count + 1), all others untouched
+    old_t = 0 if created_now else times[cur]
+    old_S = 0 if created_now else S[cur]
+    ctx.check("induct:count", algo.Times[cur] == old_t + 1, "Times of the serving learner is %s, expected %s" % (algo.Times[cur], old_t + 1))
+    ctx.check_eq("induct:score_is_mean", algo.V_reward[cur] * (old_t + 1), old_S + r, "score*(count+1) != old sum + reward")
+    for i in range(len(algo.V_algo)):
+        if i != cur:
+            ctx.check("induct:others_untouched", (algo.V_reward[i] is V[i]) and ctx.holds(algo.Times[i] == times[i]), "learner %d changed although it did not serve the round" % i)
+    ctx.check("induct:learners_only_added", len(algo.V_algo) >= n_before - (1 if created_now else 0) and all(x is y for x, y in zip(algo.V_algo, stubs)) or created_now, "learner list reordered")
+    # schedule invariant re-established: n / N is the per-learner count (m, or m+1 after a completed sweep)
+    if mode == "create":
+        ctx.check("induct:n_over_N_is_the_count", ctx.holds(algo.n == m * algo.N), "after the round n=%s, N=%s: n/N is no longer the number of rounds per learner (m)" % (algo.n, algo.N))
+        if cur == L - 1 and ctx.holds(counter + 1 >= m):
+            ctx.check("induct:doubling", algo.N == 2 * N, "all N learners complete but N was not doubled")
+    if mode == "sweep":
+        if cur + 1 < L:
+            ctx.check("induct:schedule", algo.algo_counter == cur + 1 and ctx.holds(algo.n == m * N), "cursor/n after the round")
+        else:
+            ctx.check("induct:schedule", algo.algo_counter == 0 and ctx.holds(algo.n == (m + 1) * N), "a completed sweep must add N to n and reset the cursor")
